@@ -265,7 +265,13 @@ var helpers = []string{"osxkeychain", "pass", "store"}
 func genScript(t *rapid.T) Script {
 	s := Script{Auths: map[string]Auth{}, CredHelpers: map[string]string{}, Behaviour: map[string]int{}}
 	secret := func(label string) string {
-		return rapid.SampledFrom([]string{"s3cret", "pa:ss:word", ":lead", "trail:", "with space", "é€", "a\x00b", "x", "p=q&r"}).Draw(t, label)
+		if rapid.IntRange(0, 2).Draw(t, label+"Random") == 0 {
+			// arbitrary text: every base64 digit (incl. '+' and '/') and every padding length occurs
+			// (leading and trailing NUL bytes of a password are trimmed on purpose, as the docker CLI
+			// does - documented in decodeAuth; such passwords are outside the domain of "exactly")
+			return strings.Trim(rapid.StringN(0, 12, -1).Draw(t, label), "\x00")
+		}
+		return rapid.SampledFrom([]string{"s3cret", "pa:ss:word", ":lead", "trail:", "with space", "é€", "a\x00b", "x", "p=q&r", "~~~>>>???", "\u07ff\uffff"}).Draw(t, label)
 	}
 	entry := func() Auth {
 		var a Auth
@@ -342,7 +348,7 @@ func genScript(t *rapid.T) Script {
 var prop = &vt.Prop[Script]{
 	ID:   "C19",
 	Name: "CredentialLookup",
-	Rule: "config documents generated from the schema: auths with plain host keys, https:// and http:// URL keys with 0-3 path segments and trailing slashes, keys containing '//' without a scheme, several URL keys for one host, explicit + URL key for one host; entries with username/password, auth = base64(user:password) (passwords with ':' inside/leading/trailing, spaces, NUL inside, non-ASCII), auth overriding username/password, identitytoken, registrytoken, identitytoken+username; credsStore; credHelpers incl. the empty string and a per-host helper equal to credsStore; helper behaviour per (helper, host) in {credentials, token, not found, binary missing, other error}; the file is loaded through LoadWithEnv from DOCKER_CONFIG 16 times (fresh map orders) and all hosts (and some keys) are looked up in a different order each time; oracle = an independent reference of the stated precedence: every decoding and every order gives exactly the reference's entry or error class (colliding URL keys: error listing the keys sorted); non-trivial = some looked-up host has >= 2 sources; distinct = (document, behaviours, lookups)",
+	Rule: "config documents generated from the schema: auths with plain host keys, https:// and http:// URL keys with 0-3 path segments and trailing slashes, keys containing '//' without a scheme, several URL keys for one host, explicit + URL key for one host; entries with username/password, auth = base64(user:password) (passwords with ':' inside/leading/trailing, spaces, NUL inside, non-ASCII, arbitrary generated text so that every base64 digit and padding length occurs), auth overriding username/password, identitytoken, registrytoken, identitytoken+username; credsStore; credHelpers incl. the empty string and a per-host helper equal to credsStore; helper behaviour per (helper, host) in {credentials, token, not found, binary missing, other error}; the file is loaded through LoadWithEnv from DOCKER_CONFIG 16 times (fresh map orders) and all hosts (and some keys) are looked up in a different order each time; oracle = an independent reference of the stated precedence: every decoding and every order gives exactly the reference's entry or error class (colliding URL keys: error listing the keys sorted); non-trivial = some looked-up host has >= 2 sources; distinct = (document, behaviours, lookups)",
 	Gen:  genScript,
 	Run:  run,
 }
